@@ -12,13 +12,17 @@ RULE = (
     "(1) forced: any text (token soup, damaged / well-formed descriptions, "
     "unicode) with copy_all requested through each channel -- "
     "PLSSDesc(text, layout='copy_all'), PLSSDesc(text, config='copy_all'), "
-    "PLSSDesc(text).parse(layout='copy_all', commit=False), each optionally "
+    "PLSSDesc(text).parse(layout='copy_all', commit=False), .config = "
+    "'copy_all' or .layout = 'copy_all' assigned to an existing (unparsed or "
+    "parsed) object followed by parse(), each optionally "
     "combined with segment / sec_within / colon modes: exactly one tract, "
     "desc == the entire preprocessed text, current_layout == 'copy_all'. "
     "(2) fallback: well-formed C01 descriptions with every Twp/Rge deleted, "
     "or every section reference deleted, or (TRS_desc / S_desc_TR) every "
-    "colon removed under sec_colon_required: exactly one tract holding the "
-    "whole preprocessed text (compared after stripping separators and "
+    "colon removed under sec_colon_required -- the layout deduced, or (no "
+    "section left: any of the four; colons missing: the description's own) "
+    "dictated by keyword / config / parse argument: exactly one tract "
+    "holding the whole preprocessed text (compared after stripping separators and "
     "trailing connective words), with an error flag whenever its "
     "Twp/Rge/Sec has an error component. (3) every parse of every case: no "
     "two tracts both carry the complete preprocessed text. Non-trivial: the "
@@ -36,7 +40,9 @@ ASSUMPTIONS = [
 MIN_NONTRIVIAL = {'quick': 4000, 'thorough': 100000}
 REQUIRED_MONITORS = ['forced:init-keyword', 'forced:config',
                      'forced:config-object-reused',
-                     'forced:parse-argument', 'fallback', 'no-two-full',
+                     'forced:parse-argument', 'forced:config-assigned-later',
+                     'forced:layout-attribute-later',
+                     'fallback:dictated-layout', 'fallback', 'no-two-full',
                      'forced:keyword-over-config-layout',
                      'fallback:reparse-after-ocr', 'fallback:exact',
                      'fallback:segment-whole-text',
@@ -120,6 +126,23 @@ def run_forced(case, ctx, rec, pytrs):
                     rec.reset()
                     d = pytrs.PLSSDesc(text, config=cfg)
                     tracts, pp, cur = d.tracts, d.pp_desc, d.current_layout
+                elif channel == 'config-assigned-later':
+                    # the object exists (unparsed, or parsed with a deduced
+                    # layout) before copy_all is asked for through .config
+                    d = pytrs.PLSSDesc(text, config=extra or None,
+                                       wait_to_parse=len(text) % 2 == 0)
+                    d.config = (pytrs.Config('n,w,copy_all')
+                                if len(text) % 3 == 0 else 'copy_all')
+                    rec.reset()
+                    d.parse()
+                    tracts, pp, cur = d.tracts, d.pp_desc, d.current_layout
+                elif channel == 'layout-attribute-later':
+                    d = pytrs.PLSSDesc(text, config=extra or None,
+                                       wait_to_parse=len(text) % 2 == 0)
+                    d.layout = 'copy_all'
+                    rec.reset()
+                    d.parse()
+                    tracts, pp, cur = d.tracts, d.pp_desc, d.current_layout
                 else:
                     d = pytrs.PLSSDesc(text, config=extra or None)
                     rec.reset()
@@ -183,7 +206,16 @@ def gen_fallback(rng):
     case = {'fallback': kind, 'text': text, 'cfg': cfg,
             'layout': base['layout']}
     r = rng.random()
-    if kind == 'colon-required' and r < 0.3:
+    if 'segment' not in cfg and (
+            (kind == 'no-section' and r >= 0.6)
+            or (kind == 'colon-required' and r >= 0.7)):
+        # a meaningful layout is dictated (any of the four when no section
+        # is left; the description's own when only the colons are missing):
+        # still nothing can be matched, the fallback is the only option
+        case['dictated'] = (rng.choice(G.LAYOUTS) if kind == 'no-section'
+                            else base['layout'])
+        case['dictated_by'] = rng.choice(['keyword', 'config', 'argument'])
+    elif kind == 'colon-required' and r < 0.3:
         case['how'] = 'required-by-keyword-over-cautious'
     elif kind == 'no-twprge' and r < 0.4:
         # every Twp/Rge present, but legible only to the OCR scrubber
@@ -216,6 +248,17 @@ def run_fallback(case, ctx, rec, pytrs):
                                wait_to_parse=True)
             d.parse(sec_colon_required=True)
             ctx.hit('fallback:required-by-keyword')
+        elif case.get('dictated'):
+            lay, by = case['dictated'], case['dictated_by']
+            ctx.hit('fallback:dictated-layout')
+            if by == 'keyword':
+                d = pytrs.PLSSDesc(text, layout=lay, config=cfg or None)
+            elif by == 'config':
+                d = pytrs.PLSSDesc(text, config=','.join(filter(None, [cfg, lay])))
+            else:
+                d = pytrs.PLSSDesc(text, config=cfg or None,
+                                   wait_to_parse=True)
+                d.parse(layout=lay)
         else:
             if case['fallback'] == 'colon-required' and len(text) % 2:
                 # the same text read leniently a moment ago (default and
@@ -295,7 +338,9 @@ def run_shard(shard, ctx):
                     'extra': rng.choice(EXTRA_CFG),
                     'channel': rng.choice(['init-keyword', 'config',
                                            'parse-argument',
-                                           'config-object-reused'])}
+                                           'config-object-reused',
+                                           'config-assigned-later',
+                                           'layout-attribute-later'])}
             if case['channel'] in ('init-keyword', 'parse-argument') \
                     and rng.random() < 0.2:
                 # the config names another layout: the keyword / argument
